@@ -13,10 +13,11 @@ import (
 type KnownFinding struct {
 	ID       string `json:"id"`
 	Property string `json:"property"`
-	Kind     string `json:"kind"`
+	KindRe   string `json:"kind_regex"`
 	SiteRe   string `json:"site_regex"`
 	What     string `json:"what"`
 	re       *regexp.Regexp
+	kre      *regexp.Regexp
 }
 
 type KnownFindings struct {
@@ -33,13 +34,14 @@ func LoadKnownFindings() *KnownFindings {
 	_ = json.Unmarshal(bz, kf)
 	for _, f := range kf.Findings {
 		f.re, _ = regexp.Compile("^(?:" + f.SiteRe + ")$")
+		f.kre, _ = regexp.Compile("^(?:" + f.KindRe + ")$")
 	}
 	return kf
 }
 
 func (kf *KnownFindings) Match(prop string, v Violation) *KnownFinding {
 	for _, f := range kf.Findings {
-		if f.Property == prop && f.Kind == v.Kind && f.re != nil && f.re.MatchString(v.Site) {
+		if f.Property == prop && f.kre != nil && f.kre.MatchString(v.Kind) && f.re != nil && f.re.MatchString(v.Site) {
 			return f
 		}
 	}
